@@ -28,10 +28,9 @@ THEOREMS = [
     "KrroodVerif.SG.collect_garbage_nil",
     "KrroodVerif.SG.C20_wf_run",
     "KrroodVerif.SG.C20_no_garbage_after_collect_run",
-    "KrroodVerif.SG.C20_no_garbage_run_partial",
+    "KrroodVerif.SG.C20_no_garbage_run",
     "KrroodVerif.SG.C20_cex_container_overwrite",
     "KrroodVerif.SG.C20_drop_all_clean",
-    "KrroodVerif.SG.C20_harness_schema_closed",
     "KrroodVerif.SG.C20_no_garbage_run_harness",
 ]
 MODEL_FUNCTION = ("SG.step / Heap.collect / Heap.roots / SG.sweep / SG.removeNode (Model/SymbolGraph.lean), looped by "
@@ -164,6 +163,11 @@ def _families():
                      ["new", 2, 1], ["set", 0, 0, 2], ["query", 2]], "abnormal-eval"))
         out.append(([["pre", ["new", 900, 1], ["new", 901, 1], ["qabandon", 1]], ["new", 0, 2], ["new", 1, 2],
                      ["new", 2, 1], ["set", 1, 0, 2], ["query", 1]], "abnormal-eval"))
+        # a container assertion (children.append) whose inference overwrites a scalar field (parent of the item): the value
+        # it overwrites dies at once; with and without queries over the class
+        for ops in _sg.overwrite_families():
+            out.append((ops, "container-overwrite"))
+            out.append((ops + [["query", 1]], "container-overwrite"))
         yield from ((n, ops, tag) for ops, tag in out)
         out = []
 
